@@ -39,7 +39,7 @@ rc, o = sh('cargo test --offline 2>&1 | grep -E "^test result" | head -1', wt)
 tests_ok = '68 passed; 0 failed' in o
 meta['ran'].append('with change: cargo test --offline -> %s' % o.strip())
 d_with, o_with = demo('with change')
-sh('git checkout -- .', wt)
+sh('git checkout -- . && git clean -fdq src', wt)
 d_without, o_without = demo('without change')
 sh('git clean -fdq tests; rmdir tests 2>/dev/null', wt)
 if d_with is None:
@@ -66,7 +66,7 @@ try:
         print(c, 'exit', rc, 'CAUGHT' if results[c]['caught'] else 'MISSED')
         for l in viol[:3]: print('   ', l[:240])
 finally:
-    sh('git -C /repo checkout -- .')
+    sh('git -C /repo checkout -- . && git -C /repo clean -fdq src')
     for c in checks:
         d = '/verif/replays/%s' % c
         if os.path.isdir(d):
